@@ -189,10 +189,18 @@ def _to_float(val):
         return float("nan")
 
 
+BUDGET = dict(deadline=None, seconds=None, skipped=0)
+
+
 def check(constraints, name="query", timeout_ms=20000, enc=None, logic="QF_NRA", want_model=True, tactic=None, retry=True):
     """Discharge one satisfiability query. Returns (verdict, env or None).
     An `unknown` that is a timeout is retried once with four times the budget (machine load must not turn into a verdict)."""
     t0 = time.time()
+    if BUDGET["deadline"] is not None and t0 > BUDGET["deadline"]:
+        BUDGET["skipped"] += 1
+        QUERY_LOG.append(dict(name=name + " [not attempted: wall-clock budget spent]", verdict="unknown", seconds=0.0, logic=logic,
+                              nvars=len(enc.zvars) if enc else None, nconstraints=len(constraints)))
+        return "unknown", None
     budgets = [int(timeout_ms)] + ([4 * int(timeout_ms)] if retry else [])
     verdict, env = "unknown", None
     for k, budget in enumerate(budgets):
